@@ -25,6 +25,10 @@ def main():
             sh('git -C /repo checkout -- .')
             return 2
     out = {}
+    saved = {}
+    for p in props:     # the evidence of a run against a seeded change must not replace the evidence of the real tree
+        ev = os.path.join(V, 'evidence', p + '.json')
+        saved[p] = open(ev).read() if os.path.exists(ev) else None
     try:
         for p in props:
             t0 = time.time()
@@ -37,12 +41,21 @@ def main():
                 print('   ', l[:300])
             if verdict.startswith('ERROR'):
                 print(r.stdout[-1500:])
-            out[p] = verdict
+            out[p] = {'verdict': verdict, 'tier': tier, 'seconds': round(time.time() - t0), 'ran': 'git -C /repo apply seeded/%s/patch.diff; ./check %s --tier %s; git -C /repo checkout -- .' % (seed, p, tier),
+                      'repo_head': sh('git -C /repo rev-parse --short HEAD').stdout.strip(), 'reported': (viol[:1] + [x.strip()[:400] for x in detail[:1]])}
     finally:
         sh('git -C /repo checkout -- .')
         sh('git -C /repo reset -q')
         # remove replays written for the mutant so they are not mistaken for findings on the real tree
-        sh('rm -rf %s/replays/%s' % (V, ' %s/replays/'.join(props) % tuple([V] * (len(props) - 1)) if len(props) > 1 else props[0]))
+        for p in props:
+            sh('rm -rf %s/replays/%s' % (V, p))
+            ev = os.path.join(V, 'evidence', p + '.json')
+            if saved.get(p) is not None:
+                open(ev, 'w').write(saved[p])
+    dj = os.path.join(d, 'detection.json')
+    cur = json.load(open(dj)) if os.path.exists(dj) else {}
+    cur.update(out)
+    json.dump(cur, open(dj, 'w'), indent=1)
     return 0
 
 
